@@ -72,6 +72,7 @@ struct Conn {
     bool encrypted = false;
     bool closedByPeer = false;
     int index = 0;
+    QString errors;   // socket / TLS errors seen on this end (diagnostics only)
 };
 
 class ScriptedServer : public QTcpServer
@@ -147,6 +148,11 @@ protected:
             touch();
         });
         QObject::connect(c->sock, &QSslSocket::bytesWritten, [](qint64) { touch(); });
+        QObject::connect(c->sock, QOverload<const QList<QSslError> &>::of(&QSslSocket::sslErrors), [cp](const QList<QSslError> &errs) {
+            for (const auto &e : errs)
+                cp->errors += QStringLiteral("[ssl: ") + e.errorString() + QStringLiteral("]");
+        });
+        QObject::connect(c->sock, &QAbstractSocket::errorOccurred, [cp](QAbstractSocket::SocketError) { cp->errors += QStringLiteral("[socket: ") + cp->sock->errorString() + QStringLiteral("]"); });
         conns.push_back(std::move(c));
         touch();
         if (onNewConnection)
